@@ -177,7 +177,7 @@ pub fn record(args: &[String]) {
                 2 => 1,
                 3 => rng.range_i64(1, 120),
                 4 => rng.range_i64(1, 90_000),
-                5 => *rng.pick(&[59i64, 60, 61, 3599, 3600, 86_399, 86_400, 2_678_400]),
+                5 => *rng.pick(&[59i64, 60, 61, 3599, 3600, 86_399, 86_400, 2_678_400, 31_536_000, 31_622_400, 63_158_400, 126_230_400]),
                 6 => rng.range_i64(1, 40) * 86_400,
                 _ => rng.range_i64(0, 34_560_000),
             });
@@ -251,6 +251,10 @@ fn random_expr(rng: &mut Rng) -> String {
     const DAYS: [&str; 7] = ["sun", "Mon", "TUE", "wed", "Thu", "FRI", "sat"];
     let minute = rand_field(rng, 0, 59, None, 3);
     let hour = rand_field(rng, 0, 23, None, 4);
+    if rng.chance(1, 25) {
+        // the sparsest satisfiable schedule: leap days only (gaps of four and, around 1900/2100/2200/2300, eight years)
+        return format!("{} {} 29 2 *", minute, hour);
+    }
     let month = rand_field(rng, 1, 12, Some(&MONTHS), 5);
     let dom_max = if month == "*" { 31 } else { 28 };
     let dom = rand_field(rng, 1, dom_max, None, 5);
